@@ -330,6 +330,15 @@ func resolveUpstreamConfig(service *ServiceConfig, override string) (*UpstreamCo
 		src = &UpstreamConfig{}
 	}
 
+	// options are merged field by field: a cluster block overrides only the options it states
+	if dst.RouteConfig.Options != nil && src.RouteConfig.Options != nil {
+		opts := *dst.RouteConfig.Options
+		if err := mergo.Merge(&opts, *src.RouteConfig.Options, mergo.WithOverride); err != nil {
+			return nil, err
+		}
+		src.RouteConfig.Options = &opts
+	}
+
 	err := mergo.Merge(dst, *src, mergo.WithOverride)
 	if err != nil {
 		return nil, err
